@@ -514,6 +514,13 @@ func vmetaInputs(r *vrand, n int) []vinput {
 	for i := 0; i < n/4 && i < len(vscen); i++ {
 		out = append(out, vinput{id: fmt.Sprintf("xs%d", i), data: vscen[(i*7+int(vseed()))%len(vscen)].data})
 	}
+	// curated: URLs inside parentheses and after a colon, section numbers, lettered lists, long lines
+	for i, d := range vnamed("License/Apache-1.1/license.txt", "License/OpenSSL/a.txt", "License/MIT/a.txt",
+		"License/BSD-3-Clause/a.txt", "License/LPPL-1.3c/license.txt", "License/Unicode-DFS-2016/license.txt") {
+		if vthorough() || i%3 == int(vseed()%3) || i < 2 {
+			out = append(out, vinput{id: fmt.Sprintf("xc%d", i), data: d.data})
+		}
+	}
 	return out
 }
 
@@ -838,6 +845,13 @@ func TestVerifC08(t *testing.T) {
 	multibyte := []byte("The — “MIT” License © 2020 ‐ Ünïcödé 日本語 𝔘𝔫𝔦 Permission is hereby granted, free of charge, to any person obtaining a copy\n")
 	inputs := vgenInputs(r, nIn/2+1, nIn/4+1, nIn/4+1, nIn/4+1)
 	inputs = append(inputs, vinput{id: "mb", data: bytes.Repeat(multibyte, 30)})
+	// a real license whose word gaps are no-break spaces (2 bytes each) and whose quotes are
+	// typographic: wherever the buffer boundary falls, a multi-byte character that matters is near
+	for _, d := range vnamed("License/MIT/a.txt", "License/BSD-3-Clause/a.txt") {
+		nb := strings.ReplaceAll(string(d.data), " ", "\u00a0")
+		nb = strings.ReplaceAll(nb, "\"", "\u201c")
+		inputs = append(inputs, vinput{id: "mb_" + d.name, data: []byte(nb)})
+	}
 	nfrag, npad, nfail := 0, 0, 0
 	for ii, in := range inputs {
 		want := c.Match(in.data)
@@ -859,7 +873,7 @@ func TestVerifC08(t *testing.T) {
 			}
 		}
 		// padding: leading spaces shift everything across the buffer boundaries
-		if ii < 3 || vthorough() && ii < 8 || in.id == "mb" {
+		if ii < 2 || vthorough() && ii < 8 || strings.HasPrefix(in.id, "mb") {
 			for _, p := range pads {
 				data := append(bytes.Repeat([]byte(" "), p), in.data...)
 				got := c.Match(data)
